@@ -66,8 +66,8 @@ var pow10cache []*big.Int
 // Pow10 returns a shared, read-only 10^n (n >= 0). Not safe for concurrent
 // growth; harness processes are single-threaded where it is used.
 func Pow10(n int) *big.Int {
-	if n < 0 {
-		panic("Pow10 neg")
+	if n < 0 || n > 400000 {
+		panic(fmt.Sprintf("harness bug: Pow10(%d)", n))
 	}
 	for len(pow10cache) <= n {
 		if len(pow10cache) == 0 {
